@@ -62,15 +62,20 @@ def obligations(tier):
     for a in (([1, 1, 1], [2, 1, 2]) if tier == "quick" else ([1, 1, 1], [1, 1, 2], [2, 1, 1], [2, 1, 2])):
         for b in (([2, 1, 1], [1, 1, 2]) if tier == "quick" else ([2, 1, 1], [1, 1, 1], [2, 1, 2], [1, 1, 2], [2, 1, 0])):
             fsh.append({"rec": [a, b], "mclass": "gen"})
+    fsh3 = []
     if tier != "quick":
         for a in ([1, 1, 1], [2, 1, 2]):
             for b in ([2, 1, 1], [1, 1, 2]):
-                fsh.append({"rec": [a, b, [2, 1, 1]], "mclass": "gen"})
+                fsh3.append({"rec": [a, b, [2, 1, 1]], "mclass": "gen"})
                 fsh.append({"rec": [a, b], "mclass": "33"})
     obs.append(Obligation("simultaneous_write_failures_never_escape", "harness.mgr_faults", "c07", fsh, cond_timeout=400, path_timeout=60,
                           reach="c07_reach", reach_shards=[{"rec": [[1, 1, 1], [2, 1, 1]], "mclass": "gen"}], encoded=ENC,
                           bounds="one delivery during which 1-2 (3 in the thorough tier) recipients' connections die (at the header or the payload half), the later ones also recipients of the notices the first removal publishes",
                           symbolic="msg_type, destination, module ids, logger bits, notice subscriptions, drop counters"))
+    if fsh3:
+        obs.append(Obligation("three_simultaneous_write_failures", "harness.mgr_faults", "c07", fsh3, cond_timeout=2400, path_timeout=120,
+                              encoded=ENC, bounds="three recipients of one delivery all dying (header or payload half), each a recipient of the notices the earlier removals publish",
+                              symbolic="msg_type, destination, module ids, logger bits, notice subscriptions, drop counters"))
     P = "harness.mgr_periodic"
     PENC = ["pyrtma.manager:MessageManager.send_timing_message", "pyrtma.manager:MessageManager.send_traffic",
             "pyrtma.manager:MessageManager.send_active_clients", "pyrtma.manager:MessageManager.sending_traffic_ctx",
